@@ -219,6 +219,11 @@ Fixpoint sorted_names (l : list bytes) : bool :=
   | _ => true
   end.
 
+Fixpoint nodupb (l : list bytes) : bool :=
+  match l with [] => true | a :: r => negb (existsb (beq a) r) && nodupb r end.
+Definition starts_with_slash (b : bytes) : bool :=
+  match b with c :: _ => Ascii.eqb c slash | [] => false end.
+
 Definition clause_ok (cl : N * bool * N) : bool :=
   let '(w, _, p) := cl in (w <=? 4) && (p <=? 4) && negb ((w =? 3) && (p =? 4)).
 Definition modspec_ok (ms : modspec) : bool :=
@@ -235,7 +240,7 @@ Definition object_ok (o : object) : bool :=
   let st := o_st o in
   (st_mode st <? 65536) && (st_uid st <? 4294967296) && (st_gid st <? 4294967296)
   && (st_rdev st <? 18446744073709551616)
-  && sorted_names (map fst (o_xattrs o))
+  && sorted_names (map fst (o_xattrs o)) && nodupb (map fst (o_xattrs o))
   && forallb (fun x => negb (is_nil (fst x)) && no_nul (fst x)) (o_xattrs o)
   && (if obj_type (st_mode st) =? TypeReg then o_dlen o =? st_size st else true)
   && (if obj_type (st_mode st) =? TypeSymlink then negb (is_nil (o_link o)) else true).
@@ -243,7 +248,7 @@ Definition object_ok (o : object) : bool :=
 Definition member_wf (m : mcase) : bool :=
   let p := m_opts (mc_member m) in
   modspec_ok (mc_mod m) && opt_bytes_beq (render_mod (mc_mod m)) (p_mod p)
-  && no_nul (p_name p) && no_nul (p_target p)
+  && no_nul (p_name p) && starts_with_slash (p_name p) && no_nul (p_target p)
   (* options the manual allows for the entry type *)
   && match p_ltype p with
      | LFile | LDir => negb (has (p_dev p)) && is_nil (p_target p)
